@@ -430,7 +430,8 @@ func (s *Schema) Values(t *Type, depth int) []ref.Val {
 				// values containing the delimiter have no unambiguous representation: kept out of V(T)
 				var keep []ref.Val
 				for _, x := range c {
-					if x.K == ref.KString && !strings.Contains(x.S, t.Delim) && x.S != "" {
+					// the test is on the field's representation (an enum member's representation string)
+					if r, ok := s.Repr(s.T(f.Type), x); ok && r.K == ref.KString && !strings.Contains(r.S, t.Delim) && r.S != "" {
 						keep = append(keep, x)
 					}
 				}
@@ -474,11 +475,14 @@ func (s *Schema) Values(t *Type, depth int) []ref.Val {
 		return out
 	case TMap, TList:
 		elems := s.Values(s.T(t.ValType), depth+1)
-		if t.ValNullable {
-			elems = append(elems, ref.Null())
-		}
 		if len(elems) > 4 {
 			elems = elems[:4]
+		}
+		if t.ValNullable {
+			if len(elems) > 3 {
+				elems = elems[:3]
+			}
+			elems = append(elems, ref.Null())
 		}
 		keys := []string{"a", "b"}
 		var out []ref.Val
@@ -502,6 +506,10 @@ func (s *Schema) Values(t *Type, depth int) []ref.Val {
 					out = append(out, mk([]ref.Val{e1, e2}))
 				}
 			}
+		}
+		if t.Kind == TList && depth < 2 && len(elems) >= 2 {
+			// three entries: distinct values around a repeated one / around a null
+			out = append(out, mk([]ref.Val{elems[0], elems[len(elems)-1], elems[1]}), mk([]ref.Val{elems[1], elems[0], elems[0]}))
 		}
 		if t.Kind == TMap && len(elems) > 0 {
 			// the other insertion order of two keys
